@@ -5,4 +5,7 @@ var verifHarnesses = map[string]func(){
 	"VerifC19Step": VerifC19Step,
 	"VerifC19Rest": VerifC19Rest,
 	"VerifC12Heads": VerifC12Heads,
+	"VerifC17Concurrent": VerifC17Concurrent,
+	"VerifC15Load": VerifC15Load,
+	"VerifC19History": VerifC19History,
 }
